@@ -65,3 +65,22 @@ package failsafe
 //@   modifies nothing
 //@   ensures[each-threshold-from-its-own-setting] result1 == nil ==> result0 != nil && result0.config.ConsecutiveN == environment.GetDiagnosisFailsafeConsecutiveN() && result0.config.MinStablePeriod == environment.GetDiagnosisFailsafeMinStablePeriod() && result0.config.CooldownPeriod == environment.GetDiagnosisFailsafeCooldownPeriod() && result0.config.MinTimeBetweenCalls == environment.GetDiagnosisFailsafeMinTimeBetweenCalls()
 //@   ensures[starts-healthy] result1 == nil ==> result0.lastState && result0.currentStableState && result0.changeCount == 0
+
+// C11: when the fail-safe fires it reverts the accessor it was GIVEN - the one the message handlers read the current
+// version from - not a copy of it.
+//@ func diagnosisFailsafeOnChangesToFalse
+//@   prop C11
+//@   mode seq
+//@   requires txnPoliciesAccessor != nil ==> accOK(txnPoliciesAccessor) && in(txnPoliciesAccessor.currentVersion, txnPoliciesAccessor.policiesVersions) && txnPoliciesAccessor.policiesVersions[txnPoliciesAccessor.currentVersion] != nil
+//@   requires[no-future-versions] txnPoliciesAccessor != nil ==> forall(v, config.PoliciesVersion, v > txnPoliciesAccessor.currentVersion ==> !in(v, txnPoliciesAccessor.policiesVersions))
+//@   modifies gRevertedOn, txnPoliciesAccessor.currentVersion, mapof(txnPoliciesAccessor.policiesVersions), txnPoliciesAccessor.policiesVersionsVacuum.entries, txnPoliciesAccessor.policiesVersionsVacuum.active, now
+//@   allocates HAProxyEndpointsRequest, PoliciesData, PoliciesConfig
+//@   ensures[reverts-the-accessor-it-was-given] txnPoliciesAccessor != nil ==> gRevertedOn == txnPoliciesAccessor
+//@ func diagnosisFailsafeOnChangesToTrue
+//@   prop C11
+//@   mode seq
+//@   requires txnPoliciesAccessor != nil ==> accOK(txnPoliciesAccessor) && in(txnPoliciesAccessor.currentVersion, txnPoliciesAccessor.policiesVersions) && txnPoliciesAccessor.policiesVersions[txnPoliciesAccessor.currentVersion] != nil
+//@   requires[no-future-versions] txnPoliciesAccessor != nil ==> forall(v, config.PoliciesVersion, v > txnPoliciesAccessor.currentVersion ==> !in(v, txnPoliciesAccessor.policiesVersions))
+//@   modifies gRevertedOn, txnPoliciesAccessor.currentVersion, mapof(txnPoliciesAccessor.policiesVersions), txnPoliciesAccessor.policiesVersionsVacuum.entries, txnPoliciesAccessor.policiesVersionsVacuum.active, now
+//@   allocates HAProxyEndpointsRequest, PoliciesData, PoliciesConfig
+//@   ensures[reverts-the-accessor-it-was-given] txnPoliciesAccessor != nil ==> gRevertedOn == txnPoliciesAccessor
